@@ -13,7 +13,8 @@
 //                                                 pipeline's capabilitiesNode, pre-order
 //
 // Direct oracle (independent of the Coq model): one payload is pushed through the receiver of the
-// built graph.  Every mutating component writes a marker (its own id) into the payload it receives.
+// built graph (a payload with items, or one that has a resource / scope / metric descriptors but no items at
+// all).  Every mutating component writes a marker (its own id) into the payload it receives.
 // Expected: what a component receives carries exactly the markers of the mutating components UPSTREAM
 // on its own path from the receiver (never a sibling's); a declared-mutating component never meets
 // the read-only panic; after everything has run an exporter's payload holds its arrival markers plus
@@ -74,9 +75,70 @@ type vWorldT struct {
 	cancelAt string
 	cancel   func()
 	ended    bool
+	// shape of the payload pushed through the graph (see vGTraces)
+	payloadKind int
 }
 
 type vGCtxKey struct{}
+
+// payload kinds: 0 a testdata payload with items; 1 one resource with a named scope but NO items (metrics:
+// descriptors of an empty gauge and an untyped metric, zero data points); 2 a resource only
+func vGTraces(kind int) ptrace.Traces {
+	if kind == 0 {
+		return testdata.GenerateTraces(2)
+	}
+	td := ptrace.NewTraces()
+	e := td.ResourceSpans().AppendEmpty()
+	e.Resource().Attributes().PutStr("service.name", "idle")
+	if kind == 1 {
+		e.ScopeSpans().AppendEmpty().Scope().SetName("no-spans")
+	}
+	return td
+}
+
+func vGMetrics(kind int) pmetric.Metrics {
+	if kind == 0 {
+		return testdata.GenerateMetrics(2)
+	}
+	md := pmetric.NewMetrics()
+	e := md.ResourceMetrics().AppendEmpty()
+	e.Resource().Attributes().PutStr("service.name", "idle")
+	if kind == 1 {
+		sc := e.ScopeMetrics().AppendEmpty()
+		sc.Scope().SetName("no-points")
+		g := sc.Metrics().AppendEmpty()
+		g.SetName("queue.length")
+		g.SetEmptyGauge()
+		sc.Metrics().AppendEmpty().SetName("untyped")
+	}
+	return md
+}
+
+func vGLogs(kind int) plog.Logs {
+	if kind == 0 {
+		return testdata.GenerateLogs(2)
+	}
+	ld := plog.NewLogs()
+	e := ld.ResourceLogs().AppendEmpty()
+	e.Resource().Attributes().PutStr("service.name", "idle")
+	if kind == 1 {
+		e.ScopeLogs().AppendEmpty().Scope().SetName("no-records")
+	}
+	return ld
+}
+
+func vGProfiles(kind int) pprofile.Profiles {
+	if kind == 0 {
+		return testdata.GenerateProfiles(2)
+	}
+	pd := pprofile.NewProfiles()
+	e := pd.ResourceProfiles().AppendEmpty()
+	e.Resource().Attributes().PutStr("service.name", "idle")
+	if kind == 1 {
+		e.ScopeProfiles().AppendEmpty().Scope().SetName("no-profiles")
+	}
+	return pd
+}
 
 var vWorld *vWorldT
 
@@ -139,14 +201,30 @@ func vHandle(ctx context.Context, c *vComp, payload any, ro bool, attrs func() p
 	a.count++
 	a.cell = w.cellOf(payload)
 	a.ro = ro
-	a.arrival = vMarkers(attrs())
+	// a payload that lost its (first) resource on the way makes attrs() panic: report it, do not crash
+	safe := func() (r []string) {
+		defer func() {
+			if rec := recover(); rec != nil {
+				r = []string{"<payload has no resource>"}
+			}
+		}()
+		return vMarkers(attrs())
+	}
+	a.arrival = safe()
+	if len(a.arrival) == 1 && a.arrival[0] == "<payload has no resource>" {
+		w.fail("payload-lost-structure", fmt.Sprintf("component %s received a payload without the resource that was sent", c.id))
+	}
 	a.payload = payload
-	a.final = func() []string { return vMarkers(attrs()) }
+	a.final = safe
 	if c.mut {
 		func() {
 			defer func() {
 				if r := recover(); r != nil {
-					w.fail("declared-mutator-panicked", fmt.Sprintf("component %s declares MutatesData but got a read-only payload: %v", c.id, r))
+					if fmt.Sprint(r) == "invalid access to shared data" {
+						w.fail("declared-mutator-panicked", fmt.Sprintf("component %s declares MutatesData but got a read-only payload: %v", c.id, r))
+					} else {
+						w.fail("payload-lost-structure", fmt.Sprintf("component %s cannot write its payload: %v", c.id, r))
+					}
 				}
 			}()
 			attrs().PutStr(vMk+c.id, "1")
@@ -201,22 +279,22 @@ const vStab = component.StabilityLevelDevelopment
 var vRecvFactory = xreceiver.NewFactory(component.MustNewType("vrecv"), vCfg,
 	xreceiver.WithTraces(func(_ context.Context, set receiver.Settings, _ component.Config, n consumer.Traces) (receiver.Traces, error) {
 		vWorld.recv[set.ID.Name()] = n.Capabilities().MutatesData
-		vWorld.push[set.ID.Name()] = func(ctx context.Context) error { return n.ConsumeTraces(ctx, testdata.GenerateTraces(2)) }
+		vWorld.push[set.ID.Name()] = func(ctx context.Context) error { return n.ConsumeTraces(ctx, vGTraces(vWorld.payloadKind)) }
 		return vNewComp(set.ID), nil
 	}, vStab),
 	xreceiver.WithMetrics(func(_ context.Context, set receiver.Settings, _ component.Config, n consumer.Metrics) (receiver.Metrics, error) {
 		vWorld.recv[set.ID.Name()] = n.Capabilities().MutatesData
-		vWorld.push[set.ID.Name()] = func(ctx context.Context) error { return n.ConsumeMetrics(ctx, testdata.GenerateMetrics(2)) }
+		vWorld.push[set.ID.Name()] = func(ctx context.Context) error { return n.ConsumeMetrics(ctx, vGMetrics(vWorld.payloadKind)) }
 		return vNewComp(set.ID), nil
 	}, vStab),
 	xreceiver.WithLogs(func(_ context.Context, set receiver.Settings, _ component.Config, n consumer.Logs) (receiver.Logs, error) {
 		vWorld.recv[set.ID.Name()] = n.Capabilities().MutatesData
-		vWorld.push[set.ID.Name()] = func(ctx context.Context) error { return n.ConsumeLogs(ctx, testdata.GenerateLogs(2)) }
+		vWorld.push[set.ID.Name()] = func(ctx context.Context) error { return n.ConsumeLogs(ctx, vGLogs(vWorld.payloadKind)) }
 		return vNewComp(set.ID), nil
 	}, vStab),
 	xreceiver.WithProfiles(func(_ context.Context, set receiver.Settings, _ component.Config, n xconsumer.Profiles) (xreceiver.Profiles, error) {
 		vWorld.recv[set.ID.Name()] = n.Capabilities().MutatesData
-		vWorld.push[set.ID.Name()] = func(ctx context.Context) error { return n.ConsumeProfiles(ctx, testdata.GenerateProfiles(2)) }
+		vWorld.push[set.ID.Name()] = func(ctx context.Context) error { return n.ConsumeProfiles(ctx, vGProfiles(vWorld.payloadKind)) }
 		return vNewComp(set.ID), nil
 	}, vStab),
 )
@@ -537,6 +615,8 @@ func vRunTree(out *vOut, sig int, roots []*vPipeT, simple bool, ctxMode, ctxPick
 		ctx, cancel := context.WithCancel(context.WithValue(context.Background(), vGCtxKey{}, 4242))
 		defer cancel()
 		w.cancel = cancel
+		w.payloadKind = (ctxPick / 3) % 3
+		out.Stat(fmt.Sprintf("graph_payload_kind_%d", w.payloadKind), 1)
 		switch ctxMode {
 		case 1:
 			cancel()
